@@ -1099,7 +1099,7 @@ def parallel_cases(scratch, rnd, thorough, shard=0, nshards=1):
 # caller's in-memory array is never changed by a task; a caller memmap is changed exactly when it was opened 'r+'.
 
 MODES = [None, "r", "r+", "w+", "c"]
-F58_SWITCH = "VERIF_C19_F58"   # set: also run mmap_mode=None with a small max_nbytes (fails on a tree without fix F58)
+F58_SWITCH = "VERIF_C19_F58"   # "0": skip mmap_mode=None with a small max_nbytes (F58, fixed in /repo by 2220b4d)
 
 
 def task_write(x, new_hex):
@@ -1127,8 +1127,8 @@ def mode_plan(thorough):
     for backend in ("loky", "multiprocessing"):
         for mode in MODES:
             for mx in (None, 100):
-                if mode is None and mx is not None and not os.environ.get(F58_SWITCH):
-                    continue
+                if mode is None and mx is not None and os.environ.get(F58_SWITCH) == "0":
+                    continue   # (only for looking at a tree without repair F58, where these cases break the pool)
                 if mx is None and mode not in (None, "r+") and not thorough:
                     continue   # nothing is memmapped: one mode is enough in the quick tier
                 plan.append(dict(kind="modes", backend=backend, mmap_mode=mode, max_nbytes=mx))
@@ -1558,10 +1558,14 @@ def lagging_tracker_case(case, scratch):
 
 
 def history_cases(scratch, rnd, thorough):
-    if os.environ.get(VANISH_SWITCH):
+    # the forced "lagging resource tracker" schedule (F60, known): all of it in the thorough tier, the two cases that
+    # tell managed from unmanaged in the quick tier; VERIF_C19_VANISH=0 switches it off, =1 runs all of it
+    sw = os.environ.get(VANISH_SWITCH)
+    if sw != "0":
+        full = thorough or sw == "1"
         for managed in (True, False):
-            for lag in (0, 1, 2):
-                case = dict(kind="history-lagging-tracker", managed=managed, calls=3, lag_in_call=lag)
+            for lag in ((0, 1, 2) if full else (1,)):
+                case = dict(kind="history-lagging-tracker", managed=managed, calls=3 if full else 2, lag_in_call=lag)
                 guarded(lagging_tracker_case, case, case, scratch)
     for case in history_plan(rnd, thorough):
         guarded(history_case, case, case, scratch)
